@@ -65,16 +65,14 @@ def _maxwellian_retention_frac(m, vesc, FeH, vdisp=265., vmax=1000, *,
     if fb >= 1.0:  # TODO breaks on m is array
         return 1.0
 
-    # Integrate over the Maxwellian up to the escape velocity
-    v_space = np.linspace(0, vmax, 1000)
+    # Integrate over the Maxwellian up to the escape velocity. The integral of
+    # `_maxwellian(v, a)` from 0 to vesc has a closed form (the Maxwell CDF); a
+    # fixed velocity grid cannot resolve the distribution once the scaled
+    # dispersion `a` drops to the grid spacing (fb close to 1), and gave
+    # "fractions" above 1.
+    x = vesc / (vdisp * (1 - fb))
 
-    # TODO might be a quicker way to numerically integrate than a spline
-    retention = interp.UnivariateSpline(
-        x=v_space,
-        y=_maxwellian(v_space, vdisp * (1 - fb)),
-        s=0,
-        k=3,
-    ).integral(0, vesc)
+    retention = erf(x / np.sqrt(2)) - np.sqrt(2 / np.pi) * x * np.exp(-x ** 2 / 2)
 
     return retention
 
